@@ -1004,7 +1004,11 @@ class ExprMixin:
         self.calls.append({"callee": qual, "node": node, "ctx": frame.ctx, "func": frame.func, "state": st,
                            "args": args, "kw": kw, "argmap": argmap, "entry": self.entry, "mode": self.mode})
         self.stats["calls_inlined"] += 1
-        nf = type(frame)(f, frame.ctx + (qual,), selfterm or frame.selfterm, frame.depth + 1)
+        argterms = set()
+        for v in env.values():
+            argterms |= v
+        nf = type(frame)(f, frame.ctx + (qual,), selfterm or frame.selfterm, frame.depth + 1,
+                         parent=frame, callnode=node, argterms=frozenset(argterms))
         self.stats["max_depth"] = max(self.stats["max_depth"], nf.depth)
         caller_env = st.env
         o = self.call_body(f, st.set(env=env), nf)
@@ -1022,6 +1026,12 @@ class ExprMixin:
                 elif tag(t) == "strop" and tag(t[2]) == "param":
                     dn.add(("argof", qual, pn, t[2]))
         after = after.set(done=frozenset(dn))
+        parts = o.ret_parts()
+        if len(parts) == 2:
+            extra = frozenset(dn) - o.ret.done
+            self._partition = (node, [(ps.set(env=caller_env, done=ps.done | extra), pv) for ps, pv in parts])
+        else:
+            self._partition = None
         return o.retval, after
 
     def _al(self, v):
